@@ -206,7 +206,11 @@ def classify(ctx, anomaly, sc, obs):
         if a.startswith("source-left-open:list-source:streamed:in-none:") or a.startswith("hook-early:source-still-closing:streamed:"):
             return "late-incremental-work:stream-created-after-response-built:source-left-open"
     # 9. a failed delivery group is removed from the graph without aborting the streams of its tasks
-    if kind == "none" and (a.startswith("source-left-open:list-source:streamed:in-defer:") or a.startswith("hook-early:source-still-closing:streamed:")):
+    #    (the same after a consumer stop that comes once the group has failed: the stop cannot reach a stream the
+    #    graph no longer knows)
+    if (kind == "none" or (stopped and obs.get("errors_seen"))) and (
+        a.startswith("source-left-open:list-source:streamed:in-defer:") or a.startswith("hook-early:source-still-closing:streamed:")
+    ):
         if "@defer" in sc["doc"]:
             return "group-failure:removed-subtree-not-aborted:stream-source-left-open"
     return None
@@ -333,7 +337,13 @@ def _requests(ctx, tag, n):
 
     rng = ctx.sub_rng(tag)
     fams = ["incremental", "incremental", "incremental", "subscription", "query"]
-    return [L.gen_request(rng, rng.choice(fams)) for _ in range(n)]
+    reqs = [L.gen_request(rng, rng.choice(fams)) for _ in range(n)]
+    # cooperating-parts shapes (a separate random stream: the cases above stay what they were)
+    rng2 = ctx.sub_rng(tag + ":special")
+    for _ in range(max(4, n // 12)):
+        reqs.append(L.gen_special(rng2, "nested-background", rng2.choice(["query", "query", "incremental", "subscription"])))
+        reqs.append(L.gen_special(rng2, "shared-failure", "incremental"))
+    return reqs
 
 
 def _run_all(ctx, tag, n_req, per_request, with_model=True):
